@@ -1,5 +1,6 @@
 import Mieru.Proofs.StreamWire
 import Mieru.Proofs.Fragment
+import Mieru.Proofs.TcpSessionWire
 import Mieru.Gen.Consts
 import Mieru.Gen.Arith
 /-!
@@ -163,5 +164,78 @@ example : seg1.wf toyCodec ∧ seg2.wf toyCodec := by
 /-- the two segments, sent back to back and delivered one byte at a time, are decoded exactly -/
 example : ((encodeAll toyAead toyCodec 5 [seg1, seg2]).map (fun b => [b])).foldl (feed toyAead toyCodec 1) ⟨5, [], [], false⟩
     = ⟨8, [], [(seg1.md, seg1.payload), (seg2.md, seg2.payload)], false⟩ := by decide +kernel
+
+/-! # The property's own sentence, composed
+
+`Mieru.Model.TcpSession` is the session layer of the stream transport (`Session.Write` with the
+open-request piggyback and the low-entropy decisions, `writeChunk`'s numbering, `Close`, the in-order
+check of `inputData`, `Session.Read` with the unread tail, the attached → established → closed state
+machine); `wrap` is what `writeOneSegment` adds; the wire in between is the DOCUMENTED one
+(`Mieru.Model.Spec`: the three metadata layouts, the nonce sent once then incremented per encryption,
+candidate keys on the first segment, low-entropy bodies) over any AEAD that is lawful on 32-byte keys
+and 24-byte nonces.  The theorems below chain: application calls → queued segments → wrapped
+segments → any order-preserving interleaving with other sessions' segments on the same connection →
+sealed byte stream → any chunking by the network → reference receiver → demultiplexing by session id
+→ in-order check → receive queue → `Read` calls of any sizes interleaved in any way with the
+arrivals.  Conclusion: bytes read ++ bytes still pending = bytes of the `Write` calls that returned
+success — nothing lost, duplicated, altered or taken from another proxy connection. -/
+
+open Mieru.TcpSession in
+/-- **Client → server, end to end.**  `ops` are the client application's `Write` / `Close` calls on
+    a fresh connection (any sizes, any low-entropy decisions — also writes made while the session is
+    still ATTACHED, i.e. before the client ever called `Read`); `ws` the underlay's stamps, paddings
+    (0..255 bytes each) and masks; `others` the segments of other sessions sharing the TCP connection;
+    `chunks` the way the network cut the byte stream; `es` any schedule of arrivals and `Read` calls
+    (any buffer sizes) at the server.  Then the server session is handed exactly the client's
+    segments, the bytes its application has read followed by what is still pending are exactly the
+    bytes of the client's successful writes, no input error is raised, and if the client closed the
+    session is closed behind the last byte. -/
+theorem tcp_client_to_server_end_to_end (A : Spec.AeadFns) (hA : Spec.AeadLaws32 A)
+    (sid : Nat) (hsid : sid < 2 ^ 32) (ops : List Op)
+    (hcount : (run Sess.client ops).1.length ≤ 2 ^ 32)
+    (ws : List Wrap) (hwl : ws.length = (run Sess.client ops).1.length)
+    (hws : ∀ p ∈ (run Sess.client ops).1.zip ws, p.2.ok p.1.le)
+    (mine : List (Spec.Segment × Bool)) (hmine : wrapAll true sid (run Sess.client ops).1 ws = some mine)
+    (others l : List (Spec.Segment × Bool))
+    (ho : ∀ x ∈ others, x.1.wf ∧ TcpSession.Spec.Meta.sessionID x.1.md ≠ sid) (hm : Merge mine others l)
+    (t : Spec.Tx) (hk : t.key.length = 32) (hn : t.nonce.length = 24) (cands : List Bytes)
+    (hc : ∀ k ∈ cands, k.length = 32) (hsync : Spec.InSyncFor A t (Spec.Rx.new cands) (Spec.firstMeta l))
+    (bytes : Bytes) (hs : Spec.sealAll A t l = some bytes) (chunks : List Bytes) (hch : chunks.flatten = bytes)
+    (es : List Ev)
+    (harr : arrivals es = TcpSession.forSession sid (chunks.foldl (Spec.feed A) (Spec.Rx.new cands)).out) :
+    (chunks.foldl (Spec.feed A) (Spec.Rx.new cands)).dead = none ∧
+    TcpSession.forSession sid (chunks.foldl (Spec.feed A) (Spec.Rx.new cands)).out = (run Sess.client ops).1 ∧
+    (runEv Sess.server es).1.flatten ++ (runEv Sess.server es).2.pending = accepted Sess.client ops ∧
+    (runEv Sess.server es).2.inErr = false ∧
+    ((∃ g ∈ (run Sess.client ops).1, g.kind = .closeReq) → (runEv Sess.server es).2.st = .closed) := by
+  have hopen : Sess.client.open := by decide
+  obtain ⟨r1, r2, r3⟩ := run_spec Sess.client ops
+  obtain ⟨c1, _, c3⟩ := session_stream_core A hA true sid hsid (run Sess.client ops).1
+    (fun g hg => run_lawful _ _ g hg) r2 hcount ws hwl hws mine hmine others l ho hm t hk hn cands hc hsync
+    bytes hs chunks hch
+  rw [c3] at harr
+  obtain ⟨ds, tail, e1, e2, e3⟩ := run_shape Sess.client ops hopen
+  have hseqds : ds.map (·.seq) = List.range' Sess.server.nextRecv ds.length := by
+    have := r2
+    rw [e1, List.map_append, List.length_append, ← List.range'_append_1] at this
+    exact (List.append_inj this (by simp)).1
+  have htailp : (tail.map (·.payload)).flatten = [] := by
+    rcases e3 with h | ⟨c, h, hc'⟩
+    · simp [h]
+    · have hmem : c ∈ (run Sess.client ops).1 := by rw [e1, h]; simp
+      rw [h]
+      simp [closeReq_payload _ _ c hmem hc']
+  obtain ⟨s1, s2, s3⟩ := runEv_spec_close Sess.server es ds tail (by rw [harr, e1]) e3 (by decide) (by decide) e2 hseqds
+  refine ⟨c1, c3, ?_, s3, ?_⟩
+  · rw [s1, ← r1, e1, List.map_append, List.flatten_append, htailp]
+    simp [Sess.pending, Sess.server]
+  · rintro ⟨g, hg, hgk⟩
+    apply s2
+    rw [e1, List.mem_append] at hg
+    rcases hg with hg | hg
+    · have := e2 g hg
+      rw [hgk] at this
+      simp [dataish] at this
+    · intro h; rw [h] at hg; simp at hg
 
 end Mieru.C01
